@@ -1140,7 +1140,9 @@ impl<S: U, M: U + Eq, T: U + Eq, R: U + Eq, H: U> U for ActorModelState<GA<S, M,
         state_graph(self, g)
     }
     fn gen(r: &mut Rng, d: usize) -> Self {
-        let n = r.below(4);
+        // mostly 0-3 actors; one state in 25 is a BIG system of 60-140 actors (per-actor vectors longer than a machine word
+        // has bits: a crash flag, a timer set or a pending choice far down the vector must still count)
+        let n = if r.chance(1, 25) { 60 + r.below(81) } else { r.below(4) };
         ActorModelState {
             actor_states: (0..n).map(|_| Arc::new(S::gen(r, sub(d)))).collect(),
             network: Network::gen(r, sub(d)),
@@ -1186,6 +1188,12 @@ impl<S: U, M: U + Eq, T: U + Eq, R: U + Eq, H: U> U for ActorModelState<GA<S, M,
         let mut st = self.clone();
         let n = st.actor_states.len();
         match r.below(9) {
+            // big systems: MOVE one crash flag by exactly 64 positions (the two states differ only in WHICH actor is down)
+            0 if st.crashed.len() > 64 && r.chance(1, 2) => {
+                let i = r.below(st.crashed.len() - 64);
+                let (a, b) = (st.crashed[i], st.crashed[i + 64]);
+                if a == b { st.crashed[i] = !a; } else { st.crashed.swap(i, i + 64); }
+            }
             // flip one crash flag
             0 if n > 0 => {
                 let i = r.below(st.crashed.len().max(1)) % st.crashed.len().max(1);
